@@ -65,8 +65,8 @@ Print Assumptions C09_noncritical_silent.
 
 (* Which termination reports of a hook TASK are failures: exactly those with a non-zero exit
    code (negative ones - killed by a signal - included) or an involuntary termination, whatever
-   the final Mesos state says.  The two tests are read from runTasksAsHooks by the translator on
-   every run (gen/Gen_HookFail.v), so this theorem fails when the source changes them. *)
+   the final Mesos state says.  The classification is re-observed on the real runTasksAsHooks on every run
+   (h08 -gen hookfail writes gen/Gen_HookFail.v), so this theorem fails when the code changes it. *)
 Theorem C09_task_failure_classification : forall c vol,
   term_fails c vol = true <-> (c <> 0%Z \/ vol = false).
 Proof. exact term_fails_spec. Qed.
